@@ -52,6 +52,7 @@ package store
 //@   callsite Unmarshal#2 json.UnmarshalValues
 //@   ghost loop 1 entry :: set cllen = len(a)
 //@   ghost exit :: assert coherent: imp(isNil(rerr), cllen == len(b))
+//@   ensures frame: unchanged("store.storeHandler.s", "store.storeHandler.typ", "res.Service.logger")
 //@   loop 1 invariant trim1: 0 <= s && s <= m && s <= n && m == len(a) && n == len(b) && cllen == len(a) && len(a) <= 1073741824 && len(b) <= 1073741824
 //@   loop 2 invariant trim2: 0 <= s && s <= m && s <= n && m <= len(a) && n <= len(b) && len(a) - m == len(b) - n && cllen == len(a) && len(a) <= 1073741824 && len(b) <= 1073741824
 //@   loop 3 invariant cells: forall(k, 0, len(c), 0 <= c[k] && c[k] <= k)
@@ -71,3 +72,38 @@ package store
 //@   loop 5 invariant script: forall(q, 0, len(adds), 0 <= adds[q][0] && adds[q][0] <= len(bb) - 1 - q && adds[q][1] + adds[q][2] == s + len(aa) - len(bb) + adds[q][0] + 1 + q && 0 <= adds[q][1] && adds[q][1] <= len(a) && 0 <= adds[q][2] && adds[q][2] <= len(aa))
 //@   loop 6 invariant adding: -1 <= i && i <= l && l == len(adds) - 1 && cllen == len(a) - rems + (l - i) && len(aa) - rems == len(bb) - len(adds) && 0 <= s && s + len(aa) <= len(a) && len(a) - len(aa) == len(b) - len(bb)
 //@   loop 6 invariant script: forall(q, 0, len(adds), 0 <= adds[q][0] && adds[q][0] <= len(bb) - 1 - q && adds[q][1] + adds[q][2] == s + len(aa) - len(bb) + adds[q][0] + 1 + q && 0 <= adds[q][1] && adds[q][1] <= len(a) && 0 <= adds[q][2] && adds[q][2] <= len(aa))
+//@
+//@ # modelDiff: the change event carries exactly the keys whose served value differs
+//@ pred veqv(x Value, y Value) = veq(int(x.Type), bytes(x.RawMessage), bytes(x.Inner), x.RID, int(y.Type), bytes(y.RawMessage), bytes(y.Inner), y.RID)
+//@ func modelDiff(r res.Resource, before interface{}, after interface{}) (rerr error)
+//@   requires !isNil(r)
+//@   modifies all
+//@   opaque veq
+//@   ensures frame: unchanged("store.storeHandler.s", "store.storeHandler.typ", "res.Service.logger")
+//@   ghost call Resource.ChangeEvent#1 before :: assert keys: forallint(k, iff(mapHasId(ch, k),
+//@       (mapHasId(beforeMap, k) && !mapHasId(afterMap, k)) || (mapHasId(afterMap, k) && (!mapHasId(beforeMap, k) || !veqv(mapValId(afterMap, k), mapValId(beforeMap, k))))))
+//@   ghost call Resource.ChangeEvent#1 before :: assert deleted: forallint(k, imp(mapHasId(beforeMap, k) && !mapHasId(afterMap, k), typeIs(mapValId(ch, k), "store.Value") && same(unbox(mapValId(ch, k), "store.Value"), DeleteValue)))
+//@   ghost call Resource.ChangeEvent#1 before :: assert changed: forallint(k, imp(mapHasId(afterMap, k) && mapHasId(ch, k), typeIs(mapValId(ch, k), "store.Value") && same(unbox(mapValId(ch, k), "store.Value"), mapValId(afterMap, k))))
+//@   loop 1 invariant frame: ch != nil && same(beforeMap, loopentry(beforeMap)) && same(afterMap, loopentry(afterMap))
+//@   loop 1 invariant del: forallint(k, iff(mapHasId(ch, k), _seen[k] && mapHasId(beforeMap, k) && !mapHasId(afterMap, k)))
+//@   loop 1 invariant delv: forallint(k, imp(mapHasId(ch, k), typeIs(mapValId(ch, k), "store.Value") && same(unbox(mapValId(ch, k), "store.Value"), DeleteValue)))
+//@   loop 1 invariant seen: forallint(k, imp(_seen[k], mapHasId(beforeMap, k)))
+//@   loop 1 invariant boxes: forallint(k, imp(mapHasId(ch, k), payload(mapValId(ch, k)) < nextRef()))
+//@   loop 2 invariant frame: ch != nil && same(beforeMap, loopentry(beforeMap)) && same(afterMap, loopentry(afterMap))
+//@   loop 2 invariant keys.only: forallint(k, imp(mapHasId(ch, k), (mapHasId(beforeMap, k) && !mapHasId(afterMap, k))
+//@       || (_seen[k] && mapHasId(afterMap, k) && (!mapHasId(beforeMap, k) || !veqv(mapValId(afterMap, k), mapValId(beforeMap, k))))))
+//@   loop 2 invariant keys.del: forallint(k, imp(mapHasId(beforeMap, k) && !mapHasId(afterMap, k), mapHasId(ch, k)))
+//@   loop 2 invariant keys.chg: forallint(k, imp(_seen[k] && mapHasId(afterMap, k) && (!mapHasId(beforeMap, k) || !veqv(mapValId(afterMap, k), mapValId(beforeMap, k))), mapHasId(ch, k)))
+//@   loop 2 invariant delv: forallint(k, imp(mapHasId(beforeMap, k) && !mapHasId(afterMap, k), typeIs(mapValId(ch, k), "store.Value") && same(unbox(mapValId(ch, k), "store.Value"), DeleteValue)))
+//@   loop 2 invariant chv: forallint(k, imp(mapHasId(afterMap, k) && mapHasId(ch, k), typeIs(mapValId(ch, k), "store.Value") && same(unbox(mapValId(ch, k), "store.Value"), mapValId(afterMap, k))))
+//@   loop 2 invariant seen: forallint(k, imp(_seen[k], mapHasId(afterMap, k)))
+//@   loop 2 invariant boxes: forallint(k, imp(mapHasId(ch, k), payload(mapValId(ch, k)) < nextRef()))
+//@
+//@ # changeHandler: which event announces a store mutation must agree with what get serves:
+//@ # a resource without a stored value is still served when a default value is configured
+//@ func (o *storeHandler) changeHandler(id string, before interface{}, after interface{})
+//@   requires o != nil && o.s != nil && o.s.Mux != nil && !isNil(o.s.logger)
+//@   requires small: imp(typeIs(before, "[]store.Value"), len(unbox(before, "[]store.Value")) <= 1073741824) && imp(typeIs(after, "[]store.Value"), len(unbox(after, "[]store.Value")) <= 1073741824)
+//@   modifies all
+//@   ghost call Resource.CreateEvent#1 before :: assert create.only-if-unserved: imp(isNil(old(before)), ref(o.def) == 0)
+//@   ghost call Resource.DeleteEvent#1 before :: assert delete.only-if-unserved: imp(isNil(old(after)), ref(o.def) == 0)
